@@ -83,6 +83,14 @@ def _c27_batch(ctx, st, cases):
             st["mutated"] += 1
         if o["tests"] != len(runs):
             ctx.violation("C27 aggregate per-test-map", detail)
+        elif "pertest" in o:
+            # Coverage.tla PerTest: the aggregate's entry for test i is run i's own coverage, whatever was merged after it
+            for i, r in enumerate(c["runs"]):
+                want = {f: v["lines"] for f, v in r.items() if v["present"]}
+                got = {f: v["lines"] for f, v in o["pertest"][i].items()}
+                if got != want:
+                    ctx.violation("C27 aggregate per-test-entry-changed-by-later-merge", detail)
+                    break
         if len(runs) >= 2:
             p2 = _proj(c["prefix"][1])
             for f, d in (o.get("direct") or {}).items():
